@@ -58,6 +58,18 @@ TIE = {
     "C20": _IDX + ["read_u32_overflow", "iterator_read_u32_overflow"],
 }
 
+# phase 2 (tools/rs2lean2.py, Proofs/TranslatedAgreeB*.lean): walkers, iterators, writers, escaper
+_WALK = ["get_jentry_by_index_agrees", "get_jentry_by_name_agrees", "extract_by_jentry_agrees"]
+_ITER = ["iterate_array_agrees", "array_iterator_next_agrees", "iterate_array_drain", "iteate_object_keys_agrees", "object_key_iterator_next_agrees", "iteate_object_keys_drain"]
+_KIND = ["is_array_agrees", "is_object_agrees", "array_length_agrees"]
+_PATCH = ["reserve_jentries_agrees", "replace_jentry_agrees"]
+_ENCP = ["encoder_reserve_jentries_agrees", "encoder_replace_jentry_agrees"]
+for _p, _l in {"C01": _ENCP, "C02": ["decode_hex_escape_agrees"], "C03": ["escape_scalar_string_agrees", "escape_scalar_string_run"],
+               "C05": _WALK + _ITER + _KIND, "C06": _WALK + _ITER + _PATCH, "C07": _WALK + _ITER + _PATCH, "C09": ["decode_hex_escape_agrees"],
+               "C11": _KIND, "C12": _WALK + _ITER, "C13": _ITER + _PATCH, "C16": ["decode_hex_escape_agrees"], "C17": _PATCH + _ENCP,
+               "C19": ["escape_scalar_string_agrees"], "C20": ["get_jentry_by_index_overflow"]}.items():
+    TIE[_p] = TIE[_p] + [x for x in _l if x not in TIE[_p]]
+
 # agreement theorem -> the source declarations (keys of the translator's status) it is about
 TIE_SOURCES = {
     "decode_jentry_agrees": ["src/jentry.rs::struct JEntry", "src/jentry.rs::JEntry::decode_jentry"],
@@ -80,6 +92,22 @@ TIE_SOURCES = {
     "pretty_opts_new_agrees": ["src/functions.rs::struct PrettyOpts", "src/functions.rs::PrettyOpts::new"],
     "pretty_opts_inc_indent_agrees": ["src/functions.rs::struct PrettyOpts", "src/functions.rs::PrettyOpts::inc_indent"],
 }
+TIE_SOURCES.update({
+    "get_jentry_by_index_agrees": ["src/functions.rs::get_jentry_by_index"], "get_jentry_by_index_overflow": ["src/functions.rs::get_jentry_by_index"],
+    "get_jentry_by_name_agrees": ["src/functions.rs::get_jentry_by_name"], "extract_by_jentry_agrees": ["src/functions.rs::extract_by_jentry"],
+    "is_array_agrees": ["src/functions.rs::is_array"], "is_object_agrees": ["src/functions.rs::is_object"], "array_length_agrees": ["src/functions.rs::array_length"],
+    "decode_hex_escape_agrees": ["src/util.rs::decode_hex_escape"],
+    "escape_scalar_string_agrees": ["src/functions.rs::escape_scalar_string"], "escape_scalar_string_run": ["src/functions.rs::escape_scalar_string"],
+    "reserve_jentries_agrees": ["src/builder.rs::reserve_jentries"], "replace_jentry_agrees": ["src/builder.rs::replace_jentry"],
+    "encoder_reserve_jentries_agrees": ["src/ser.rs::struct Encoder", "src/ser.rs::Encoder::reserve_jentries"],
+    "encoder_replace_jentry_agrees": ["src/ser.rs::struct Encoder", "src/ser.rs::Encoder::replace_jentry"],
+    "iterate_array_agrees": ["src/iterator.rs::struct ArrayIterator", "src/iterator.rs::iterate_array"],
+    "array_iterator_next_agrees": ["src/iterator.rs::struct ArrayIterator", "src/iterator.rs::ArrayIterator::next"],
+    "iterate_array_drain": ["src/iterator.rs::struct ArrayIterator", "src/iterator.rs::iterate_array", "src/iterator.rs::ArrayIterator::next"],
+    "iteate_object_keys_agrees": ["src/iterator.rs::struct ObjectKeyIterator", "src/iterator.rs::iteate_object_keys"],
+    "object_key_iterator_next_agrees": ["src/iterator.rs::struct ObjectKeyIterator", "src/iterator.rs::ObjectKeyIterator::next"],
+    "iteate_object_keys_drain": ["src/iterator.rs::struct ObjectKeyIterator", "src/iterator.rs::iteate_object_keys", "src/iterator.rs::ObjectKeyIterator::next"],
+})
 for _k in ("null", "true", "false", "string", "number", "container"):
     TIE_SOURCES["make_%s_jentry_agrees" % _k] = ["src/jentry.rs::struct JEntry", "src/jentry.rs::JEntry::make_%s_jentry" % _k]
     TIE_SOURCES["%s_word_agrees" % _k] = ["src/jentry.rs::struct JEntry", "src/jentry.rs::JEntry::make_%s_jentry" % _k, "src/jentry.rs::JEntry::encoded"]
@@ -87,7 +115,7 @@ for _k in ("null", "true", "false", "string", "number", "container"):
 TRUSTED_BASE = [
     "Lean 4.33.0 kernel (thorough tier re-checks the theorem module with leanchecker)",
     "axioms: only propext, Classical.choice, Quot.sound (audited per theorem by #print axioms on every run); no native_decide, no bv_decide, no user axioms, no sorry",
-    "tools/rs2lean.py (translator of 26 leaf functions of /repo/src to Lean, regenerated every run) with lean/JsonbModel/RustPrelude*.lean (hand-written meaning of the Rust primitives it emits: integer casts, checked arithmetic, byte conversions, OrderedFloat); the agreement theorems tie its output to the model",
+    "tools/rs2lean.py + tools/rs2lean2.py (translators of 42 functions of /repo/src to Lean: number codec and order, entry words, index arithmetic, byte walkers, iterators, entry patching, escaper; regenerated every run) with lean/JsonbModel/RustPrelude*.lean (hand-written meaning of the Rust primitives they emit: integer casts, checked arithmetic, byte conversions, slices, loops as bounded folds, OrderedFloat); the agreement theorems tie their output to the model",
     "tools/gen_constants.py (translator constants.rs -> Lean) and the line-protocol glue (lean/JsonbModel/Driver/*.lean, harness/src/wire.rs)",
     "the correspondence check itself: the hand-written implementation model is tied to /repo by sampled differential runs (request stream of this run, see coverage)",
     "modelled, not verified: Rust slice/Vec/integer-cast semantics, BTreeMap ordering, byteorder; the spec layer is my reading of the README and the property text",
